@@ -92,6 +92,12 @@ PAIRS = [
      ["parse", "через 3 дня в 14:00", None, ["ru"], None, None, {"NORMALIZE": False}]),
     # (two concurrent search_dates calls are not paired: they reproduce, with hundreds of distinct wrong hit lists, the recorded
     # finding that search_dates keeps its running RELATIVE_BASE in the shared Settings object — pairs 12 and 13 pin that down)
+    # tiny cache limits: whatever is evicted (split-regex caches, the registry of shared Settings objects, per-locale memos) when
+    # another call registers something new must not be something an in-flight call has just looked up
+    ("small-cache-limit", ["parse", "3 March 2004 10:30", None, ["en"], None, None, {"CACHE_SIZE_LIMIT": 1, "RELATIVE_BASE": [2000, 1, 1, 0, 0, 0, 0]}],
+     ["parse", "5 May 2010", None, ["en"], None, None, {"CACHE_SIZE_LIMIT": 1, "RELATIVE_BASE": [2010, 5, 5, 0, 0, 0, 0]}]),
+    ("small-cache-limit", ["parse", "12 janvier 2020", None, ["fr"], None, None, {"CACHE_SIZE_LIMIT": 2}],
+     ["parse", "3 März 2015 14:05", None, ["de"], None, None, {"CACHE_SIZE_LIMIT": 2, "PREFER_DATES_FROM": "past"}]),
     ("calendar-vs-parse", ["calendar", "jalali", "جمعه سی ام اسفند ۱۳۸۷"], ["parse", "12 بهمن 1394", None, ["fa"], None, None, None]),
 ]
 
@@ -371,7 +377,7 @@ def check_case(case):
             if o and o[0] == "ok" and o[1] is None:
                 return "None"
             if o and o[0] == "exc":
-                return "raises-" + o[1]
+                return "raises-" + o[1] + ("@" + o[3] if len(o) > 3 and o[3] else "")
             # any other value (a list of search hits, a DateData): not spelled out in the key — the hundreds of distinct wrong
             # hit lists one race can produce would make the key depend on the seed
             return "other-value"
